@@ -320,7 +320,7 @@ pub fn run(ctx: &Ctx) -> i32 {
         let ne = case.g.ne();
         let sectors = all_sectors(ne);
         let per_sector = sector_points(&case, &sectors[0], k, &roles).len() * 2;
-        let budget = (tier.pick(1500, 20000) / (case.nl * case.nl).max(1)).max(per_sector);
+        let budget = (tier.pick(1500, 6000) / (case.nl * case.nl).max(1)).max(per_sector);
         let fit = (budget / per_sector.max(1)).max(1);
         let stride = (sectors.len() + fit - 1) / fit;
         for (si, order) in sectors.iter().enumerate() {
